@@ -4,3 +4,4 @@ pub mod dom;
 pub mod edits;
 pub mod gen;
 pub mod wf;
+pub mod xpath;
